@@ -57,6 +57,41 @@ M = [
  ('merge-forget-flag', 'src/ops/merge.rs', '          inner.completed_one = true;', '', 'C04', 'fire'),
  ('zip-swallow-error', 'src/ops/zip.rs', '      fn error(self, err: Err) {\n        if let Some(observer) = self.rc_deref_mut().observer.take() {\n          observer.error(err);\n        }', '      fn error(self, _err: Err) {\n        if let Some(observer) = self.rc_deref_mut().observer.take() {\n          observer.complete();\n        }', 'C04', 'fire'),
  ('combine-latest-forget-flag', 'src/ops/combine_latest.rs', '          inner.completed_one = true;', '', 'C04', 'fire'),
+ # --- C04.M7 latest-value provenance
+ ('combine-latest-store-after', 'src/ops/combine_latest.rs', '''        match value {
+          CombineItem::ItemA(v) => {
+            inner.a = Some(v);
+          }
+          CombineItem::ItemB(v) => {
+            inner.b = Some(v);
+          }
+        }
+        let CombineLatestObserver { observer, a, b, binary_op, .. } =
+          &mut *inner;
+        if let (Some(observer), Some(a), Some(b)) =
+          (observer.as_mut(), a.clone(), b.clone())
+        {
+          observer.next(binary_op(a, b));
+        }''', '''        {
+          let CombineLatestObserver { observer, a, b, binary_op, .. } =
+            &mut *inner;
+          if let (Some(observer), Some(a), Some(b)) =
+            (observer.as_mut(), a.clone(), b.clone())
+          {
+            observer.next(binary_op(a, b));
+          }
+        }
+        match value {
+          CombineItem::ItemA(v) => {
+            inner.a = Some(v);
+          }
+          CombineItem::ItemB(v) => {
+            inner.b = Some(v);
+          }
+        }''', 'C04', 'fire'),
+ ('with-latest-b-keeps-first', 'src/ops/with_latest_from.rs', '    *self.value.rc_deref_mut() = Some(value);', '    let mut slot = self.value.rc_deref_mut();\n    if slot.is_none() {\n      *slot = Some(value);\n    }', 'C04', 'fire'),
+ ('with-latest-b-replace-form', 'src/ops/with_latest_from.rs', '    *self.value.rc_deref_mut() = Some(value);', '    self.value.rc_deref_mut().replace(value);', 'C04', 'silent'),
+ ('sample-source-keeps-first', 'src/ops/sample.rs', '    *self.value.rc_deref_mut() = Some(value);', '    let mut slot = self.value.rc_deref_mut();\n    if slot.is_none() {\n      *slot = Some(value);\n    }', 'C04', 'fire'),
  # --- C06
  ('subject-push-live', 'src/subject.rs', '      if let Some(chamber) = self.chamber.rc_deref_mut().as_mut() {\n        let subscriber = $subscriber::new(Some(observer));\n        chamber.push', '      if let Some(chamber) = self.observers.rc_deref_mut().as_mut() {\n        let subscriber = $subscriber::new(Some(observer));\n        chamber.push', 'C06', 'fire'),
  ('subject-no-load-in-next', 'src/subject.rs', '    fn next(&mut self, value: $item) {\n      self.load();', '    fn next(&mut self, value: $item) {', 'C06', 'fire'),
